@@ -45,6 +45,9 @@ fn to_roma_sequence(s: &str) -> (String, String) {
     if let Some((v, len)) = conversions.get(0) {
         let rest = s.chars().skip(*len).collect();
         (v.clone(), rest)
+    } else if let Some((v, len)) = conversion::expand_lonely_sokuon(s) {
+        // かなが続かない促音も、必ずアルファベットにする
+        (v, s.chars().skip(len).collect())
     } else {
         let v = s.to_string();
         let ret: String = v.chars().take(1).collect();
